@@ -11,7 +11,7 @@ theorem contRead_post {s : S} (hi : Inv s) (hp : s.parked = none) (n : Nat) (it 
     Post s [] (contRead s n it) := by
   unfold contRead
   split
-  · rename_i h; exact post_park hp (bufs_of_wait h) ⟨.read n, [], it⟩
+  · rename_i h; exact post_park hp (bufs_of_wait h) ⟨.read n, [], it⟩ (fun _ => rfl)
   · obtain ⟨d, hr, hd, -, -⟩ := readNowait_reach hi (some n)
     have hq := quiet_readNowait s (some n)
     have := post_data (acc := []) (by rw [hq.parked]; exact hp) hr
@@ -21,7 +21,7 @@ theorem contReadAny_post {s : S} (hi : Inv s) (hp : s.parked = none) (it : Bool)
     Post s [] (contReadAny s it) := by
   unfold contReadAny
   split
-  · rename_i h; exact post_park hp (bufs_of_wait h) ⟨.readAny, [], it⟩
+  · rename_i h; exact post_park hp (bufs_of_wait h) ⟨.readAny, [], it⟩ (fun _ => rfl)
   · obtain ⟨d, hr, hd, -, -⟩ := readNowait_reach hi none
     have hq := quiet_readNowait s none
     have := post_data (acc := []) (by rw [hq.parked]; exact hp) hr
@@ -33,7 +33,7 @@ theorem contReadAll_post : ∀ (fuel : Nat) {s : S} (acc : Bytes) (it : Bool), I
   | fuel + 1, s, acc, it, hi, hp => by
     simp only [contReadAll]
     split
-    · rename_i h; exact post_park hp (bufs_of_wait h) ⟨.readAll, acc, it⟩
+    · rename_i h; exact post_park hp (bufs_of_wait h) ⟨.readAll, acc, it⟩ (fun h => by cases h)
     · obtain ⟨d, hr, hd, -, -⟩ := readNowait_reach hi none
       have hq := quiet_readNowait s none
       have hp1 : (readNowait s none).1.parked = none := by rw [hq.parked]; exact hp
@@ -121,7 +121,7 @@ theorem contReadUntil_post {s : S} (hi : Inv s) (hp : s.parked = none) (sep : By
       · rw [hd]; exact post_data hp1 hr
       · rename_i h1 h2 h3
         have hb := hfin (by omega) (by simpa using h2) (by simpa using h1)
-        have := post_park hp1 hb ⟨.readUntil sep m, (untilInner (s.bufs.length + 1) s sep m acc).2.1, it⟩
+        have := post_park hp1 hb ⟨.readUntil sep m, (untilInner (s.bufs.length + 1) s sep m acc).2.1, it⟩ (fun h => by cases h)
         rw [hd] at this ⊢
         exact post_of_reach hr this
 
@@ -131,7 +131,7 @@ theorem contReadExactly_post : ∀ (fuel : Nat) {s : S} (n : Nat) (acc : Bytes),
   | fuel + 1, s, n, acc, hi, hp => by
     simp only [contReadExactly]
     split
-    · rename_i h; exact post_park hp (bufs_of_wait h) ⟨.readExactly n, acc, false⟩
+    · rename_i h; exact post_park hp (bufs_of_wait h) ⟨.readExactly n, acc, false⟩ (fun h => by cases h)
     · obtain ⟨d, hr, hd, -, -⟩ := readNowait_reach hi (some n)
       have hq := quiet_readNowait s (some n)
       have hp1 : (readNowait s (some n)).1.parked = none := by rw [hq.parked]; exact hp
@@ -139,7 +139,7 @@ theorem contReadExactly_post : ∀ (fuel : Nat) {s : S} (n : Nat) (acc : Bytes),
       split
       · rename_i hde
         have hd0 : d = [] := by rw [← hd]; simpa using hde
-        refine ⟨⟨d, hr, ?_⟩, by intro _; exact hp1, by intro h; cases h⟩
+        refine ⟨⟨d, hr, ?_⟩, by intro _; exact hp1, (by intro h; cases h), accok_of_none hp1⟩
         intro _; simp [outBytes, pendAcc, hp1, hd0]
       · rw [hd]
         split
@@ -200,7 +200,7 @@ theorem contReadChunk_post {s : S} (hi : Inv s) (hp : s.parked = none) (it : Boo
       | some o =>
         have := hsome o rfl
         subst this
-        exact ⟨⟨d, hr, by intro _; simp [outBytes, pendAcc, hp1]⟩, by intro _; exact hp1, by intro h; cases h⟩
+        exact ⟨⟨d, hr, by intro _; simp [outBytes, pendAcc, hp1]⟩, by intro _; exact hp1, (by intro h; cases h), accok_of_none hp1⟩
       | none =>
         have hd0 := hn rfl
         subst hd0
@@ -210,13 +210,13 @@ theorem contReadChunk_post {s : S} (hi : Inv s) (hp : s.parked = none) (it : Boo
           have hne : s1.bufs ≠ [] := by intro h; simp [h] at hb
           have hq := quiet_rnc s1 none
           refine post_of_reach hr ?_
-          refine ⟨⟨_, Reach.one (Move.rnc s1 none hne), ?_⟩, by intro _; rw [hq.parked]; exact hp1, by intro h; cases h⟩
+          refine ⟨⟨_, Reach.one (Move.rnc s1 none hne), ?_⟩, by intro _; rw [hq.parked]; exact hp1, (by intro h; cases h), accok_of_none (by rw [hq.parked]; exact hp1)⟩
           intro _; simp [outBytes, pendAcc, hq.parked, hp1]
         · split
-          · exact ⟨⟨[], hr, by intro _; simp [outBytes, pendAcc, hp1]⟩, by intro _; exact hp1, by intro h; cases h⟩
+          · exact ⟨⟨[], hr, by intro _; simp [outBytes, pendAcc, hp1]⟩, by intro _; exact hp1, (by intro h; cases h), accok_of_none hp1⟩
           · rename_i hb _
             have hb' : s1.bufs = [] := by simpa using hb
-            exact post_of_reach hr (by simpa using post_park hp1 hb' ⟨.readChunk, [], it⟩)
+            exact post_of_reach hr (by simpa using post_park hp1 hb' ⟨.readChunk, [], it⟩ (fun _ => rfl))
     cases hs : s.splits with
     | none =>
       simp only []
